@@ -49,12 +49,12 @@ SEQ_TEST = "^TestVerifC08Seq$"
 
 TIERS = {
     "quick": dict(workers=8, sim_num=150, sim_depth=24, max_beh=260, max_cand=40,
-                  dfs_random=8, dfs_limit=250, core_limit=400,
+                  dfs_random=8, dfs_limit=250, core_limit=400, edge_sample=600,
                   seq_short=40, seq_shortops=40, seq_long=2, seq_longops=4000,
                   par=4, small_timeout=240),
-    "thorough": dict(workers=8, sim_num=1500, sim_depth=30, max_beh=3000, max_cand=400,
-                     dfs_random=60, dfs_limit=800, core_limit=3000,
-                     seq_short=400, seq_shortops=60, seq_long=20, seq_longops=10000,
+    "thorough": dict(workers=8, sim_num=2500, sim_depth=30, max_beh=5000, max_cand=400,
+                     dfs_random=120, dfs_limit=800, core_limit=3000, edge_sample=0,
+                     seq_short=600, seq_shortops=60, seq_long=40, seq_longops=10000,
                      par=6, small_timeout=900),
 }
 
@@ -433,6 +433,10 @@ def signature_of(kind, trace, li):
     what = SIG.get(kind)
     if what is None:
         return None, kind
+    if kind == "getnext-parked-though-successor-exists" and \
+            any(n != -1 and n not in e.get("keys", []) for n in e.get("next", [])):
+        # the shape of finding F10b: some batch's NextID points to a deleted batch
+        return "getnext-parked-behind-dangling-nextid", what + " (a NextID in the store points to a deleted batch)"
     return kind, what
 
 
@@ -484,13 +488,13 @@ def report_rejections(ctx, rej, traces, source):
             dumps({k: ev.get(k) for k in ("t", "a", "arg", "pos", "ret", "keys", "next", "tail", "ckeys", "cnext", "parked", "runnable", "bad")})[:500]))
 
 
-def validate(ctx, traces, source, par):
+def validate(ctx, traces, source, par, do_conform=True):
     """(thread safe, no verdicts) monitor on everything, conformance on the traces
     without predicate failures."""
     viols = monitor(ctx, traces, par, source)
     bad = {ti for ti, _, _ in viols}
     good = [traces[i] for i in range(len(traces)) if i not in bad and traces[i][0].get("note") != "seq"]
-    rej, nconf = conform(ctx, good, par, source)
+    rej, nconf = conform(ctx, good, par, source) if do_conform else ([], 0)
     return dict(traces=traces, viols=viols, bad=bad, good=good, rej=rej, nconf=nconf)
 
 
@@ -656,7 +660,7 @@ def run(ctx):
 def stage_tlc_replay(ctx, cfg, rng, binv, tmpd):
     """Behaviours out of TLC (simulation of the repaired model with projected post
     states; counterexamples of the pinned-tree model), replayed on the real code."""
-    r_uf = ctx.tlc("OutStream", cfg="OutStream_unfixed.cfg", workers=2, timeout=300, deadlock=False, name="design-unfixed")
+    r_uf = ctx.tlc("OutStream", cfg="OutStream_unfixed.cfg", workers=1, timeout=300, deadlock=False, name="design-unfixed")
     if not r_uf.finished or r_uf.invariant_violated or r_uf.error:
         raise vlib.Inconclusive("TLC on OutStream_unfixed.cfg failed:\n" + "\n".join(r_uf.out.splitlines()[-20:]))
     cands = parse_printed(r_uf, "CANDIDATE")
@@ -700,6 +704,52 @@ def stage_tlc_replay(ctx, cfg, rng, binv, tmpd):
     return res
 
 
+def stage_edges(ctx, cfg, rng, binv, tmpd):
+    """One behaviour per transition of the complete state graph of the tiny instance
+    OutStream_edges.cfg (all of them in the thorough tier, a seeded sample in the
+    quick tier), replayed on the real code and compared step by step."""
+    r = ctx.tlc("OutStream", cfg="OutStream_edges.cfg", workers=1, timeout=600, deadlock=False, name="design-edges", heap="4g")
+    if not r.ok:
+        raise vlib.Inconclusive("TLC on OutStream_edges.cfg failed:\n" + "\n".join(r.out.splitlines()[-20:]))
+    edges = parse_printed(r, "EDGE")
+    if len(edges) < 1000:
+        raise vlib.Inconclusive("edge cover: only %d behaviours printed" % len(edges))
+    total = len(edges)
+    edges.sort(key=json.dumps)
+    if cfg["edge_sample"] and cfg["edge_sample"] < total:
+        edges = rng.sample(edges, cfg["edge_sample"])
+    programs, expect, plist = {}, {}, []
+    for i, h in enumerate(edges):
+        f = id_map(rng, 4)
+        p = hist_to_program(h, "edge-%d" % i, f)
+        programs[p["name"]] = p
+        expect[p["name"]] = (h, f)
+        plist.append(p)
+    traces, _ = run_sched(ctx, binv, plist, tmpd, cfg["par"], "edges")
+    if len(traces) != len(plist):
+        raise vlib.Inconclusive("edge cover: replayed %d programs, got %d traces" % (len(plist), len(traces)))
+    ctx.log("edge cover: %d of %d transitions of the tiny instance replayed on the real code" % (len(plist), total))
+    res = validate(ctx, traces, "edge-cover", cfg["par"], do_conform=False)
+    res.update(programs=programs, expect=expect, total=total, r=r)
+    return res
+
+
+def compare_stage(ctx, res, bad, source):
+    """(main thread) model post states vs real-code projection, step by step."""
+    ndiv = 0
+    for ti, tr in enumerate(res["traces"]):
+        name = tr[0]["prog"]
+        if name not in res["expect"] or ti in bad:
+            continue
+        h, f = res["expect"][name]
+        d = compare_replay(h, f, res["programs"][name], tr)
+        ctx.add("model_steps_compared", len(h))
+        if d is not None:
+            ndiv += 1
+            ctx.drift("%s %s: step %d field %s: model %s, real code %s" % (source, name, d[0], d[1], d[2], d[3]))
+    return ndiv
+
+
 def stage_dfs(ctx, cfg, rng, binv, tmpd):
     dprogs = core_programs(cfg["core_limit"]) + [random_program(rng, k, cfg["dfs_limit"]) for k in range(cfg["dfs_random"])]
     traces, sums = run_sched(ctx, binv, dprogs, tmpd, cfg["par"], "dfs")
@@ -720,19 +770,22 @@ def stage_seq(ctx, cfg, binp, tmpd):
 
 
 def _run(ctx, cfg, rng, binv, binp, tmpd):
-    pool = cf.ThreadPoolExecutor(8)
-    rng1, rng2 = random.Random(rng.random()), random.Random(rng.random())
+    pool = cf.ThreadPoolExecutor(9)
+    rng1, rng2, rng3 = random.Random(rng.random()), random.Random(rng.random()), random.Random(rng.random())
     # design runs and the stages exercising the real code run side by side
     f_small = pool.submit(design_small, ctx, cfg, not ctx.quick)
-    f_live = None
+    f_live = f_big = None
     if not ctx.quick:
+        f_big = pool.submit(ctx.tlc, "OutStream", cfg="OutStream_thorough.cfg", workers=8, timeout=1500,
+                            deadlock=False, name="design-thorough", heap="8g")
         f_live = pool.submit(ctx.tlc, "OutStream", cfg="OutStream_live.cfg", workers=4, timeout=1500,
                              deadlock=False, name="design-live", heap="6g")
     f_rep = pool.submit(stage_tlc_replay, ctx, cfg, rng1, binv, tmpd)
     f_dfs = pool.submit(stage_dfs, ctx, cfg, rng2, binv, tmpd)
+    f_edge = pool.submit(stage_edges, ctx, cfg, rng3, binv, tmpd)
     f_seq = pool.submit(stage_seq, ctx, cfg, binp, tmpd)
     f_self = pool.submit(selftest, ctx, binv, tmpd, False)
-    futures = [f_small, f_rep, f_dfs, f_seq, f_self] + ([f_live] if f_live else [])
+    futures = [f_small, f_rep, f_dfs, f_edge, f_seq, f_self] + ([f_live, f_big] if f_live else [])
     try:
         cf.wait(futures)
         for f in futures:
@@ -751,21 +804,21 @@ def _run(ctx, cfg, rng, binv, binp, tmpd):
     traces, programs = res["traces"], res["programs"]
     ctx.cov["schedules_replayed"] = len(traces)
     bad = apply_validation(ctx, res, programs, "tlc-replay")
-    ndiv = 0
-    for ti, tr in enumerate(traces):
-        name = tr[0]["prog"]
-        if name not in res["expect"] or ti in bad:
-            continue
-        h, f = res["expect"][name]
-        d = compare_replay(h, f, programs[name], tr)
-        ctx.add("model_steps_compared", len(h))
-        if d is not None:
-            ndiv += 1
-            ctx.drift("tlc-replay %s: step %d field %s: model %s, real code %s" % (name, d[0], d[1], d[2], d[3]))
-    ctx.cov["replay_divergences"] = ndiv
+    ctx.cov["replay_divergences"] = compare_stage(ctx, res, bad, "tlc-replay")
     for tr in traces[:2]:
         ctx.sample({"prog": programs[tr[0]["prog"]]["threads"], "sched": programs[tr[0]["prog"]]["sched"],
                     "steps": ["%s:%s(%s)->%s/%s" % (e["t"], e["a"], e["arg"], e["pos"], e["ret"]["k"]) for e in tr if e["ev"] == "Step"]})
+
+    # model -> code: edge cover of the tiny instance
+    res = f_edge.result()
+    ctx.add("states", res["r"].distinct)
+    ctx.add("transitions", res["r"].generated)
+    ctx.add("tlc_runs")
+    ctx.add("schedules_replayed", len(res["traces"]))
+    bad = apply_validation(ctx, res, res["programs"], "edge-cover")
+    ctx.cov["edge_cover"] = {"transitions_in_graph": res["total"], "states_in_graph": res["r"].distinct,
+                             "transitions_replayed": len(res["traces"]),
+                             "divergences": compare_stage(ctx, res, bad, "edge-cover")}
 
     # code -> model: DFS over schedules
     res = f_dfs.result()
@@ -801,7 +854,18 @@ def _run(ctx, cfg, rng, binv, binp, tmpd):
     ctx.log("OutStream_small.cfg: %d distinct states, %d generated, depth %d: all invariants hold" % (
         r.distinct, r.generated, r.depth))
     if not ctx.quick:
+        # expected zero-hit lines: the Crash branch of W (pinned-tree defect, excluded by
+        # Fixed = TRUE, exercised by OutStream_unfixed.cfg) and PlusCal's Terminating
         ctx.cov["coverage_zero"] = [z for z in r.coverage_zero()][:20]
+        rb = f_big.result()
+        if not rb.ok:
+            raise vlib.Inconclusive("TLC on OutStream_thorough.cfg did not pass: violated=%s timed_out=%s\n%s" % (
+                rb.invariant_violated, rb.timed_out, "\n".join(rb.out.splitlines()[-20:])))
+        ctx.add("states", rb.distinct)
+        ctx.add("transitions", rb.generated)
+        ctx.add("tlc_runs")
+        ctx.cov["design_thorough"] = {"distinct": rb.distinct, "generated": rb.generated, "depth": rb.depth}
+        ctx.log("OutStream_thorough.cfg: %d distinct states, depth %d: all invariants hold" % (rb.distinct, rb.depth))
         rl = f_live.result()
         if not rl.ok:
             raise vlib.Inconclusive("TLC on OutStream_live.cfg did not pass: violated=%s timed_out=%s\n%s" % (
